@@ -61,6 +61,8 @@ def replay_vectors(ctx, recs, vals, worst):
                           {"ast": ast, "form": form, "exception": repr(exc)})
                 continue
             for j, v in enumerate(pyvals):
+                if res[j] == "U":
+                    continue           # a string leaf walks through a scalar here: contains is C08's subject
                 got = sl.evaluate(obj, v)
                 if got[:1] != res[j]:
                     worst.add(mismatch_kind(res[j], got), (sl.size(ast), jkey(ast), j),
@@ -148,7 +150,7 @@ def record_selectors(ctx, rnd, n, worst):
         vals = []
         for _ in range(40):
             v = sl.random_val(rnd)
-            c = v[1] if isinstance(v, tuple) else {}
+            c = lf.get_context(v)
             if not any(sl.through_scalar(c, p) for p in paths):
                 vals.append(v)
             if len(vals) == 4:
@@ -380,7 +382,7 @@ def gb_ctx(rnd, depth=3):
         if t < 0.4:
             continue
         if t < 0.7 or depth <= 1:
-            d[k] = rnd.choice([1, 2, 2, "1"])
+            d[k] = rnd.choice([1, 2, 2, "1", None, None, 0, "", [], {}])
         else:
             d[k] = gb_ctx(rnd, depth - 1)
     return d
@@ -415,11 +417,11 @@ def record_groupby(ctx, rnd, n, worst):
                     if r < 0.3:
                         del cur[p[-1]]
                     elif r < 0.6:
-                        cur[p[-1]] = rnd.choice([1, 2, {}])
+                        cur[p[-1]] = rnd.choice([1, 2, {}, None, 0, "", []])
                     else:
-                        cur[p[-1]] = {rnd.choice("abc"): rnd.choice([1, 2, {}])}
+                        cur[p[-1]] = {rnd.choice("abc"): rnd.choice([1, 2, {}, None, 0])}
                 else:
-                    c[rnd.choice("abcd")] = rnd.choice([1, 2, {}])
+                    c[rnd.choice("abcd")] = rnd.choice([1, 2, {}, None, 0, ""])
             cs.append(c)
         values = [(pos + 1, c) for pos, c in enumerate(cs)]
         try:
@@ -506,6 +508,10 @@ def run(ctx):
     gworst = Worst()
     crecs = ctx.export("GroupBy", "GroupBy_%s_export.cfg" % tag, env={"GM_FILE": gmfile}, min_records=len(pairs))
     replay_classes(ctx, crecs, rnd, gworst)
+    if ctx.thorough:
+        # a second universe: None, 0, "", [], False, {} at every listed path
+        crecs2 = ctx.export("GroupBy", "GroupBy_thorough2_export.cfg", env={"GM_FILE": gmfile}, min_records=len(pairs))
+        replay_classes(ctx, crecs2, rnd, gworst)
     ctx.sample({"spec_behaviour_groupby": {k: crecs[len(crecs) // 2][k] for k in ("G", "M", "cls")}})
     flrecs = ctx.export("GroupBy", "GroupBy_flow_%s_export.cfg" % tag, env={"GM_FILE": gmfile}, min_records=1000)
     replay_flows(ctx, flrecs, gworst)
